@@ -241,6 +241,13 @@ def gen_gw(rng, profile, spec):
                 "values": [rng.choice(depth_pool)]}
     k = rng.randint(2, 6)
     offs = sorted(rng.sample(range(1, n), min(k - 1, n - 1)))
+    if len(offs) >= 2 and rng.random() < 0.3:
+        # two observations only a few days apart
+        j = rng.randrange(len(offs) - 1)
+        near = offs[j] + rng.randint(1, 3)
+        if near < n and near not in offs:
+            offs[j + 1] = near
+            offs = sorted(set(offs))
     offs = [0] + offs
     method = "Constant" if r < 0.7 else "Variable"
     if method == "Variable":
